@@ -754,6 +754,11 @@ def find_unique_graphs(
     :rtype: `dict`[`str`, `set`[`str`]]
     """
     time_window = get_time_window(time_buffer, sql_data_holder)
+    # hashes are recomputed for the current contents of the store, any hashes
+    # persisted by a previous run are removed first
+    with sql_data_holder.session as session:
+        session.execute(sa.delete(JobHash))
+        session.commit()
     temp_table = create_temp_table_of_root_nodes_in_time_window(
         time_window, sql_data_holder
     )
